@@ -120,6 +120,9 @@ pub fn mul(x: GfElement, log_m: GfElement, exp: &Exp, log: &Log) -> GfElement {
 
 #[allow(clippy::needless_range_loop)]
 fn initialize_exp_log() -> ExpLog {
+    #[cfg(feature = "verif-hooks")]
+    let _verif_guard = crate::verif::InitGuard::new("EXP_LOG");
+
     let mut exp = Box::new([0; GF_ORDER]);
     let mut log = Box::new([0; GF_ORDER]);
 
@@ -159,6 +162,9 @@ fn initialize_exp_log() -> ExpLog {
 }
 
 fn initialize_log_walsh() -> Box<LogWalsh> {
+    #[cfg(feature = "verif-hooks")]
+    let _verif_guard = crate::verif::InitGuard::new("LOG_WALSH");
+
     let log = *EXP_LOG.log;
 
     let mut log_walsh: Box<LogWalsh> = Box::new([0; GF_ORDER]);
@@ -171,6 +177,9 @@ fn initialize_log_walsh() -> Box<LogWalsh> {
 }
 
 fn initialize_mul16() -> Box<Mul16> {
+    #[cfg(feature = "verif-hooks")]
+    let _verif_guard = crate::verif::InitGuard::new("MUL16");
+
     let exp = &*EXP_LOG.exp;
     let log = &*EXP_LOG.log;
     let mut mul16 = vec![[[0; 16]; 4]; GF_ORDER];
@@ -189,6 +198,9 @@ fn initialize_mul16() -> Box<Mul16> {
 }
 
 fn initialize_mul128() -> Box<Mul128> {
+    #[cfg(feature = "verif-hooks")]
+    let _verif_guard = crate::verif::InitGuard::new("MUL128");
+
     // Based on:
     // https://github.com/catid/leopard/blob/22ddc7804998d31c8f1a2617ee720e063b1fa6cd/LeopardFF16.cpp#L375
     let exp = &*EXP_LOG.exp;
@@ -221,6 +233,9 @@ fn initialize_mul128() -> Box<Mul128> {
 
 #[allow(clippy::needless_range_loop)]
 fn initialize_skew() -> Box<Skew> {
+    #[cfg(feature = "verif-hooks")]
+    let _verif_guard = crate::verif::InitGuard::new("SKEW");
+
     let exp = &*EXP_LOG.exp;
     let log = &*EXP_LOG.log;
 
